@@ -288,6 +288,35 @@ pub fn capacity(r: &dyn Runner, tier: Tier, st: &St, lmax: usize, out: &mut Vec<
     if st.len <= 2 && st.spare != Spare::Scrub { out.push(Edge::Cap(Api::Typed, CapCall::PushRun, 0)); }
 }
 
+/// alphabet of the unmerged history cross-check (simple, state-changing operations of every kind)
+pub fn history_alphabet(cloneable: bool, resizable: bool) -> Vec<Edge> {
+    let mut v = vec![
+        Edge::Push(Api::Typed, Src::W), Edge::Push(Api::Erased, Src::R), Edge::Push(Api::Erased, Src::BPop),
+        Edge::Insert(Api::Erased, 0, Src::R), Edge::Insert(Api::Erased, 1, Src::W), Edge::Insert(Api::Typed, 0, Src::W),
+        Edge::Pop(Api::Erased, Sink::Drop), Edge::Pop(Api::Erased, Sink::PushB), Edge::Remove(Api::Erased, 0, Sink::Downcast), Edge::SwapRemove(Api::Erased, 0, Sink::Drop), Edge::Remove(Api::Typed, 0, Sink::Downcast),
+        Edge::Clear(Api::Erased),
+        Edge::Drain { api: Api::Erased, a: 0, b: 1, form: Form::Excl, pat: Pat { n: 1, bits: 1 }, sink: Sink::Drop },
+        Edge::Drain { api: Api::Typed, a: 0, b: 1, form: Form::Excl, pat: Pat::none(), sink: Sink::Downcast },
+        Edge::Splice { api: Api::Erased, a: 0, b: 1, form: Form::Excl, pat: Pat::none(), sink: Sink::Drop, rn: 2, rsrc: RSrc::W, lie: 0 },
+        Edge::Splice { api: Api::Typed, a: 0, b: 0, form: Form::Excl, pat: Pat::none(), sink: Sink::Downcast, rn: 1, rsrc: RSrc::W, lie: 0 },
+    ];
+    if resizable {
+        v.extend([Edge::Cap(Api::Erased, CapCall::Reserve, 3), Edge::Cap(Api::Typed, CapCall::ReserveExact, 1), Edge::Cap(Api::Erased, CapCall::ShrinkToFit, 0), Edge::Cap(Api::Erased, CapCall::ShrinkTo, 1)]);
+    }
+    if cloneable { v.push(Edge::Push(Api::Erased, Src::LzRef(0, 1))); v.push(Edge::CloneVec { then: 0 }); }
+    v
+}
+
+/// unmerged cross-check: every sequence of `depth` alphabet operations as ONE real history (only from empty initial states)
+pub fn histories(r: &dyn Runner, tier: Tier, st: &St, out: &mut Vec<Edge>) {
+    if st.len != 0 { return; }
+    let n = history_alphabet(r.cloneable(), r.resizable()).len() as u8;
+    let depth4 = tier == Tier::Thorough && st.cap <= 2;
+    for a in 0..n { for b in 0..n { for c in 0..n {
+        if depth4 { for d in 0..n { out.push(Edge::History { a, b, c, d }); } } else { out.push(Edge::History { a, b, c, d: u8::MAX }); }
+    } } }
+}
+
 /// raw parts (C17)
 pub fn rawparts(_r: &dyn Runner, _tier: Tier, _st: &St, out: &mut Vec<Edge>) {
     for variant in 0..crate::exec_views::N_RAW_VARIANTS { for then in 0..crate::exec_clone::N_THEN { out.push(Edge::RawParts { variant, then }); } }
@@ -308,7 +337,7 @@ fn movers(out: &mut Vec<Edge>) {
 pub fn edges_for(prop: Prop, tier: Tier, r: &dyn Runner, st: &St) -> Vec<Edge> {
     let mut v = Vec::new();
     match prop {
-        Prop::C01 => elementwise(r, tier, st, &mut v),
+        Prop::C01 => { elementwise(r, tier, st, &mut v); histories(r, tier, st, &mut v); }
         Prop::C02 => { ranges(r, tier, st, true, &mut v); adaptors(r, tier, st, true, &mut v); v.push(Edge::Push(Api::Typed, Src::W)); v.push(Edge::Pop(Api::Typed, Sink::Downcast)); }
         Prop::C14 => { iter_protocol(r, tier, st, &mut v); adaptors(r, tier, st, false, &mut v); }
         Prop::C08 => { clones(r, tier, st, &mut v); movers(&mut v); }
@@ -341,12 +370,12 @@ pub fn edges_for(prop: Prop, tier: Tier, r: &dyn Runner, st: &St) -> Vec<Edge> {
             for variant in 0..4u8 { v.push(Edge::Bytes { variant, k: 0 }); }
             for k in 0..16u8 { v.push(Edge::Bytes { variant: 6, k }); }
         }
-        Prop::C12 => { views(r, tier, st, &mut v); capacity(r, tier, st, bounds(prop, tier).lmax, &mut v); elementwise(r, tier, st, &mut v); v.retain(|e| !matches!(e, Edge::Cap(_, CapCall::PushRun, _))); }
+        Prop::C12 => { views(r, tier, st, &mut v); capacity(r, tier, st, bounds(prop, tier).lmax, &mut v); elementwise(r, tier, st, &mut v); v.retain(|e| !matches!(e, Edge::Cap(_, CapCall::PushRun, _))); histories(r, tier, st, &mut v); }
         Prop::C19 => { elementwise(r, tier, st, &mut v); ranges(r, tier, st, true, &mut v); clones(r, tier, st, &mut v); }
         Prop::C11 => { elementwise(r, tier, st, &mut v); ranges(r, tier, st, true, &mut v); clones(r, tier, st, &mut v); }
         Prop::C10 => { capacity(r, tier, st, bounds(prop, tier).lmax, &mut v); elementwise(r, tier, st, &mut v); }
         Prop::C04 => { wrong_types(r, tier, st, &mut v); movers(&mut v); }
-        Prop::C03 | Prop::C05 => { elementwise(r, tier, st, &mut v); ranges(r, tier, st, true, &mut v); adaptors(r, tier, st, true, &mut v); clones(r, tier, st, &mut v); lazies(r, tier, st, &mut v); }
+        Prop::C03 | Prop::C05 => { elementwise(r, tier, st, &mut v); ranges(r, tier, st, true, &mut v); adaptors(r, tier, st, true, &mut v); clones(r, tier, st, &mut v); lazies(r, tier, st, &mut v); histories(r, tier, st, &mut v); }
         _ => {}
     }
     v
